@@ -479,6 +479,14 @@ func (srv *server) registerClient(connect *packets.Connect, client *client) (ses
 	}
 	if !sessionResume {
 		// create new session
+		// A new session has no subscriptions. A persistent store may still hold those of an
+		// earlier session of this client id whose removal was interrupted (the broker died
+		// between removing the session and removing its subscriptions); they must not
+		// come back with the next restart.
+		err = srv.subscriptionsDB.UnsubscribeAll(client.opts.ClientID)
+		if err != nil {
+			return
+		}
 		// It is ok to pass nil to defaultNotifier, because we will call Init to override it.
 		qs, err = srv.persistence.NewQueueStore(srv.config, nil, client.opts.ClientID)
 		if err != nil {
